@@ -1,2 +1,2 @@
-(* C01 — placeholder until the engine theorems are added in this file. *)
+(* C01 — placeholder until the fix-point theorem lands (see C01 in DESIGN.md). *)
 From HG Require Import Base Engine.
